@@ -124,32 +124,39 @@ def terminator_and_arity(P, R):
     argc, argv, extent = find_vec(fn)
     rd, disp = core.reader_dispatch(P)
 
+    # state: 'open' | ('terminated', v) | ('full', v), v the counter the vector is terminated / full at
+    counters = {argc}
+    for s0 in fn.stores():
+        l0 = s0.ev.get('lhs') or {}
+        if l0.get('k') == 'idx' and is_var(l0['base'], argv):
+            counters |= set(vars_in(l0['index']))
+
     def on_event(st, s):
         ev = s.ev
-        if ev['k'] == 'store' and is_var(ev.get('lhs'), argc):
+        if ev['k'] == 'store' and is_var(ev.get('lhs')) and ev.get('op') == '=' and is_var(ev.get('rhs')) and st != 'open' and ev['rhs']['name'] == st[1]:
+            return (st[0], ev['lhs']['name'])      # the count is copied (helper's result handed to the caller)
+        if ev['k'] == 'store' and is_var(ev.get('lhs')) and ev['lhs']['name'] in counters:
             return 'open'
         if ev['k'] == 'store' and ev['lhs'].get('k') == 'idx' and is_var(ev['lhs']['base'], argv):
             ix = ev['lhs']['index']
-            if is_var(ix, argc) and const_of(ev.get('rhs')) == 0:
-                return 'terminated'
+            if is_var(ix) and const_of(ev.get('rhs')) == 0:
+                return ('terminated', ix['name'])
             if not (ix.get('k') == 'un' or is_var(ix)):
                 return st
             return 'open'
-        if ev['k'] == 'call' and any(is_var(a, argv) for a in ev['args']) and (ev.get('callee') or '') in ('memset',):
-            return st
         return st
 
     def on_edge(st, e):
         r = rules.edge_rel(e)
-        if r and is_var(r[0], argc) and r[1] == '>=' and const_of(r[2]) is not None and const_of(r[2]) >= extent and st == 'open':
-            return 'full'
+        if r and is_var(r[0]) and r[1] == '>=' and const_of(r[2]) is not None and const_of(r[2]) >= extent and r[0]['name'] in counters:
+            return ('full', r[0]['name'])
         return st
     before, _, _, _ = fn.forward('open', on_event, on_edge)
     for s, h, vs in disp:
         if not any(x.get('k') == 'idx' and is_var(x['base'], argv) for a in s.ev['args'] for x in walk(a)) and not any(is_var(a, argv) for a in s.ev['args']):
             continue
         sts = before.get(s.key, set())
-        R.ob('C08.MPT.3', bool(sts) and sts <= {'terminated', 'full'}, s, 'when %s is dispatched the argument vector is NULL-terminated for this line (states: %s)' % (h.name, sorted(sts)), key='terminated:%s' % h.name)
+        R.ob('C08.MPT.3', bool(sts) and all(x != 'open' and x[1] == argc for x in sts), s, 'when %s is dispatched the argument vector is NULL-terminated for this line (states: %s)' % (h.name, sorted(map(str, sts))), key='terminated:%s' % h.name)
     R.floor('C08.MPT.3', 6)
     # arity table
     for s, h, vs in disp:
